@@ -657,6 +657,36 @@ def scratch_tree():
         shutil.rmtree(tmp, ignore_errors=True)
 
 
+def settle_with_glob_match(r, wf) -> str | None:
+    """Make the graph one in which nothing is wrong but glob matches (correspondence and oracle of
+    the glob arm of `report_unbuilt`): every attached step SUCCEEDED, and an attached step holds a
+    registration whose recorded match is a file that an attached step builds (the state a recycled,
+    skipped globbing step leaves when another step has meanwhile declared its match as an output).
+    Executed inside a transaction; returns a description or None when the graph has no product."""
+    import corr_kernel
+    from stepup.core.nglob import NamedGlob
+    from stepup.core.step import Step
+
+    db = wf.db
+    db.execute("UPDATE step SET deferred = 0")
+    db.execute("UPDATE step SET state = ?", (StepState.SUCCEEDED.value,))
+    products = [label for (label,) in db.execute(
+        "SELECT node.label FROM node JOIN file ON file.node = node.i WHERE NOT node.detached AND file.state IN (?, ?, ?, ?)",
+        (FileState.PLANNED.value, FileState.BUILT.value, FileState.OUTDATED.value, FileState.VOLATILE.value))]
+    steps = [(i, label) for i, label in db.execute("SELECT i, label FROM node WHERE kind = 'step' AND NOT detached")]
+    if not products or not steps or r.random() < 0.25:
+        return "settled" if steps else None
+    path = r.choice(sorted(products))
+    patterns = [p for p in corr_kernel.PATTERNS if NamedGlob(p)._match_values(path) is not None] or ["**"]
+    ng = NamedGlob(r.choice(patterns))
+    ng.extend([path])
+    if not list(ng.files()):
+        return "settled"
+    i, label = r.choice(sorted(steps))
+    Step(wf, i, label).add_nglob(ng)
+    return f"settled + glob {ng.pattern} of '{label}' records the product {path}"
+
+
 def raw_mutation(r, wf):
     """Turn the state into what an interrupted or odd build could have left (correspondence only):
     steps that were running end FAILED or PENDING, some PENDING steps carry a deferred flag, cached
@@ -708,6 +738,14 @@ async def kernel_leftovers(ctx, nseq: int, nops: int, salt: str, do_model: bool,
                     # unreachable states: the reference still defines every relation, so the oracle applies
                     await examine_workflow(ctx, run_.wf, run_.sched, r.random() < 0.3, os.path.exists, where,
                                            lines, expect, do_oracle, legal=False)
+                async with run_.wf.db:
+                    desc = settle_with_glob_match(r, run_.wf)
+                if desc is not None:
+                    ctx.stats.count("kernel-settled-graphs" + ("-with-glob-on-product" if "records" in desc else ""))
+                    where = {"source": "kernel-sequence+settled", "sequence_seed": [ctx.seed, salt, i],
+                             "how": "after the sequence every step row is set SUCCEEDED; " + desc}
+                    await examine_workflow(ctx, run_.wf, run_.sched, False, os.path.exists, where, lines, expect,
+                                           do_oracle, legal=False)
             ctx.stats.programs += 1
     if do_model:
         compare_with_model(ctx, lines, expect)
@@ -730,6 +768,25 @@ def compare_with_model(ctx, lines, expect):
 # ---------------------------------------------------------------------------------------------
 # Leftover graphs from simulated builds
 # ---------------------------------------------------------------------------------------------
+
+
+def gen_glob_product_case(r):
+    """Build 1: `x.txt` is static and a step's glob("*.txt") records it. Then the plan is edited: `x.txt`
+    becomes the output of a new step declared before the unchanged globbing step. In build 2 the globbing
+    step is detached while the output is declared, then recycled and skipped with its match intact: only
+    the end-of-build validation sees that a pattern matches a file a step builds."""
+    from simdirector import A, Project
+
+    name = r.choice(["x.txt", "notes.txt", "gen/x.txt"])
+    pattern = "*.txt" if "/" not in name else "gen/*.txt"
+    extra = [A.static("src/a.txt"), A.step("cc", inp=["src/a.txt"], out=["out/a.o"])] if r.random() < 0.6 else []
+    globber = A.step("globber", inp=[], out=["out/list.out"])
+    plan1 = [A.static(name), *extra, globber]
+    plan2 = [A.step("mkx", inp=[], out=[name]), *extra, globber]
+    files = {name: "hand written\n", "src/a.txt": "a\n"}
+    project = Project(scripts={"./plan.py": plan1, "globber": [A.glob(pattern), A.write_declared()]}, files=files, env={})
+    opts = {"njob": r.randint(1, 2), "keep_going": r.random() < 0.5}
+    return project, opts, [("script", "./plan.py", plan2)]
 
 
 def gen_sim_case(r):
@@ -912,15 +969,20 @@ def sim_leftovers(ctx, ncase: int, salt: str, do_model: bool, do_oracle: bool, o
     lines, expect = [], []
     for i in (range(ncase) if only is None else [only]):
         r = ctx.rng(salt, i)
-        project, opts, feats, invalid = gen_sim_case(r)
+        scripted = None
+        if r.random() < 0.12:
+            project, opts, scripted = gen_glob_product_case(r)
+            feats, invalid = ["glob-match-becomes-output"], None
+        else:
+            project, opts, feats, invalid = gen_sim_case(r)
         where = {"source": "simulated-build", "case_seed": [ctx.seed, salt, i], "features": feats + ([invalid] if invalid else []),
                  "options": {k: v for k, v in opts.items()}}
         ctx.stats.programs += 1
         for f in feats + ([f"invalid-{invalid}"] if invalid else []):
             ctx.stats.count("sim-feature-" + f)
         with SimDirector(copy.deepcopy(project), seed=r.randint(0, 10**6)) as sim:
-            watch = r.random() < 0.3
-            nphase = r.randint(1, 3)
+            watch = r.random() < 0.3 and scripted is None
+            nphase = r.randint(1, 3) if scripted is None else 2
             for phase in range(nphase):
                 w = {**where, "phase": phase, "watch": watch}
                 try:
@@ -937,6 +999,8 @@ def sim_leftovers(ctx, ncase: int, salt: str, do_model: bool, do_oracle: bool, o
                 # between phases: repair or break something
                 edits = []
                 kind = r.choice(["fix-missing", "touch-source", "none", "break-source"])
+                if scripted is not None:
+                    kind, edits = "scripted", list(scripted)
                 if kind == "fix-missing":
                     edits = [("write", "src/does_not_exist.txt", "now it does\n"), ("write", "src/never.txt", "n\n")]
                 elif kind == "touch-source":
